@@ -32,6 +32,7 @@ def tasks(tier):
         combos.append(dict(cons=["le"], vars=["lower"], scaling=dict(vw=[-2], cw=[1], ow=2)))
         combos.append(dict(cons=["eq0"], vars=["boxed"], x0_outside=True))
         combos.append(dict(cons=[], vars=["lower", "free"], x0_outside=True))
+        combos.append(dict(cons=["eq0", "eq0"], vars=["boxed"]))  # two rows sharing the variable: J^T c is a genuine sum
         return loop.loop_tasks(combos, 2) + loop.loop_tasks([dict(cons=[], vars=["boxed"]), dict(cons=[], vars=["lower"], policy="ObjectiveFilter")], 4) + loop.loop_tasks([dict(cons=["eq0"], step_failures=True)], 2) + loop.loop_tasks([dict(cons=[], policy="ObjectiveFilter", step_failures=True)], 3)
     combos = [dict(cons=c, vars=v) for c in (["eq0"], ["eqb"], ["ge"], ["le"], ["ranged"]) for v in (["boxed"], ["fixed"], ["upper"])]
     combos.append(dict(cons=["eq0"], vars=["boxed"], limit=False))
